@@ -38,10 +38,16 @@ CLAIMS = {
              "five calls only shrink the resident set; lifted to every reachable state incl. restarts.",
              technique="Lean 4 invariant by induction over system steps + correspondence on stat/resident-set after every step",
              ref="8 C15"),
- "C16": dict(text="Every panic site reachable from the write API is an explicit branch of the model; proved unreachable "
-             "for all argument values except a log index equal to u64::MAX (known finding, witness proved). "
-             "Correspondence: model must predict `panic` exactly where the code panics under catch_unwind with "
-             "overflow checks on, boundary-integer argument stream.",
+ "C16": dict(text="Proved without restriction on the arguments (Props/C16All2): for every store satisfying the panic-freedom invariant and "
+             "EVERY well-formed op (any u64 values, incl. index u64::MAX, any payload below 4 GiB) the call does not panic and keeps the "
+             "invariant (c16_call_no_panic); for every cfg and every history of such calls (accepted or rejected) interleaved with flushes "
+             "and worker steps of any outcome no call panics (c16_history_no_panic); recovery of ANY crash image of any reachable directory "
+             "never panics (c16_recovery_never_panics, c16_open_no_panic_history_all); a log id with index u64::MAX is refused with an "
+             "error and leaves no trace (c16_u64_max_is_refused - after fix 06dc691; before it this was the recorded overflow panic). "
+             "Reads: no panic for any range on reachable states (Props/C16Read, with the reference-log hypotheses), read with to <= from is "
+             "empty, truncate(0) is an error. Correspondence: the model must predict `panic` exactly where the code panics under "
+             "catch_unwind with overflow checks on - nowhere on the current tree - over boundary-integer argument streams, a small-scope "
+             "sweep around the purge point, histories with worker steps; worker-thread panics are observed too.",
              technique="Lean 4 totality/invariant proof of the checked-arithmetic model + catch_unwind differential run",
              ref="8 C16"),
  "C11": dict(text="Proved: file-name round trip / fixed length / injectivity / order-isomorphism for every u64 id (digit-list proofs, "
